@@ -37,6 +37,7 @@ MANIFEST = dict(
 IMP_CS = ['Coq.Lists.List', 'Coq.NArith.NArith', 'Coq.ZArith.ZArith', 'Coq.Bool.Bool', 'SV.Fmt.CmdSeq', 'SV.Gen.CmdSeqFmt_gen']
 IMP_SMD = ['Coq.Lists.List', 'Coq.NArith.NArith', 'Coq.Arith.PeanoNat', 'SV.Fmt.SmdTpl', 'SV.Gen.SmdTpl_gen']
 IMP_IMG = ['Coq.Lists.List', 'Coq.NArith.NArith', 'Coq.Bool.Bool', 'SV.Fmt.ScenesImage']
+IMP_IMGCFG = ['Coq.Lists.List', 'Coq.NArith.NArith', 'Coq.Bool.Bool', 'SV.Fmt.ScenesImage', 'SV.Fmt.ScenesImageCfg', 'SV.Gen.ScenesImg_gen']
 
 PRE = '''Import ListNotations. Open Scope N_scope.
 Fixpoint nl_eqb (a b : list N) : bool := match a, b with [], [] => true | x :: a', y :: b' => N.eqb x y && nl_eqb a' b' | _, _ => false end.
@@ -44,6 +45,16 @@ Definition onl_eqb (a b : option (list N)) : bool := match a, b with Some x, Som
 Fixpoint bad_idx {A} (f : A -> bool) (n : N) (l : list A) : list N := match l with [] => [] | x :: r => (if f x then [] else [n]) ++ bad_idx f (n + 1) r end.
 Definition unrle (l : list (N * N)) : list N := flat_map (fun p => repeat (fst p) (N.to_nat (snd p))) l.
 '''
+
+
+def par_eval(ck: Ck, jobs: list[tuple]) -> list:
+    """Evaluate independent batches concurrently (one coqc each; results in job order, so the outcome is deterministic).
+    job = (imports, [exprs], unique name, preamble)."""
+    from concurrent.futures import ThreadPoolExecutor
+    if not jobs:
+        return []
+    with ThreadPoolExecutor(max_workers=min(6, len(jobs))) as ex:
+        return list(ex.map(lambda j: ck.coq_eval(j[0], j[1], name=j[2], preamble=j[3]), jobs))
 
 
 def rle(b: bytes) -> str:
@@ -145,7 +156,7 @@ def cs_nonrepresentable(rng: random.Random, spec: dict) -> dict:
 
 
 def corr_cmdseq_write(ck: Ck) -> list[tuple[dict, bytes]]:
-    n = ck.budget(120, 1500)
+    n = ck.budget(60, 1500)
     cases = []
     files = []
     for i in range(n):
@@ -166,11 +177,12 @@ def corr_cmdseq_write(ck: Ck) -> list[tuple[dict, bytes]]:
             ck.seen(('csw', json.dumps(spec, sort_keys=True)))
     ck.sample({'cmdseq_value': cases[0][0], 'impl_bytes_rle': cases[0][1][:300]})
     bad: list[int] = []
-    for lo in range(0, len(cases), 60):
-        part = cases[lo:lo + 60]
+    jobs = []
+    for lo in range(0, len(cases), 30):
+        part = cases[lo:lo + 30]
         lit = coq_list(f'({cs_coq_value(s)}, {e})' for s, e in part)
-        vals = ck.coq_eval(IMP_CS, [f'bad_idx (fun c : seqs * option (list N) => onl_eqb (write gen_cfg (fst c)) (snd c)) 0 {lit}'],
-                           name='cswrite', preamble=PRE_CS)
+        jobs.append((IMP_CS, [f'bad_idx (fun c : seqs * option (list N) => onl_eqb (write gen_cfg (fst c)) (snd c)) 0 {lit}'], f'cswrite{lo}', PRE_CS))
+    for lo, vals in zip(range(0, len(cases), 30), par_eval(ck, jobs)):
         if vals is None:
             ck.obligation('correspondence:cmdseq-write', False, 'model could not be evaluated')
             ck.tie_broken.append('correspondence cmdseq write: model evaluation failed')
@@ -249,7 +261,7 @@ def cs_mutate(rng: random.Random, data: bytes) -> tuple[str, bytes]:
 
 
 def corr_cmdseq_parse(ck: Ck, files: list[tuple[dict, bytes]]) -> None:
-    n = ck.budget(150, 2000)
+    n = ck.budget(90, 2000)
     cases = []
     base = [d for _, d in files if len(d) < 6000] or [U.cmdseq_write({})]
     for i in range(n):
@@ -265,11 +277,12 @@ def corr_cmdseq_parse(ck: Ck, files: list[tuple[dict, bytes]]) -> None:
         if len(data) > 200:
             ck.seen(('csp', data))
     bad: list[int] = []
-    for lo in range(0, len(cases), 50):
-        part = cases[lo:lo + 50]
+    jobs = []
+    for lo in range(0, len(cases), 30):
+        part = cases[lo:lo + 30]
         lit = coq_list(f'(unrle {rle(d)}, {e})' for _, d, e in part)
-        vals = ck.coq_eval(IMP_CS, [f'bad_idx (fun c : list N * option (list N) => onl_eqb (option_map flat (parse gen_cfg (fst c))) (snd c)) 0 {lit}'],
-                           name='csparse', preamble=PRE_CS)
+        jobs.append((IMP_CS, [f'bad_idx (fun c : list N * option (list N) => onl_eqb (option_map flat (parse gen_cfg (fst c))) (snd c)) 0 {lit}'], f'csparse{lo}', PRE_CS))
+    for lo, vals in zip(range(0, len(cases), 30), par_eval(ck, jobs)):
         if vals is None:
             ck.obligation('correspondence:cmdseq-parse', False, 'model could not be evaluated')
             ck.tie_broken.append('correspondence cmdseq parse: model evaluation failed')
@@ -338,7 +351,7 @@ def image_case(rng: random.Random):
 def corr_image(ck: Ck) -> None:
     from srctools import binformat
     from srctools.choreo import save_scenes_image_sync, parse_scenes_image
-    n = ck.budget(120, 1500)
+    n = ck.budget(60, 1500)
     wcases = []
     pcases = []
     for _ in range(n):
@@ -397,11 +410,12 @@ def corr_image(ck: Ck) -> None:
             ck.hist('image_parse', exp[0] if exp[0] == 'ok' else 'error:' + exp[1])
     ck.sample({'scenes_image_container_case': wcases[0][2], 'impl_file_hex': bytes(parse_coq_N_list(wcases[0][1])).hex()[:400]})
     bad: list[int] = []
-    for lo in range(0, len(wcases), 100):
-        part = wcases[lo:lo + 100]
+    jobs = []
+    for lo in range(0, len(wcases), 40):
+        part = wcases[lo:lo + 40]
         lit = coq_list(f'({a}, {b})' for a, b, _ in part)
-        vals = ck.coq_eval(IMP_IMG, [f'bad_idx (fun c : (N * list (list N) * list entry) * list N => let \'(v, pool, es) := fst c in nl_eqb (img_write_py v pool es) (snd c)) 0 {lit}'],
-                           name='imgwrite', preamble=PRE_IMG)
+        jobs.append((IMP_IMG, [f'bad_idx (fun c : (N * list (list N) * list entry) * list N => let \'(v, pool, es) := fst c in nl_eqb (img_write_py v pool es) (snd c)) 0 {lit}'], f'imgwrite{lo}', PRE_IMG))
+    for lo, vals in zip(range(0, len(wcases), 40), par_eval(ck, jobs)):
         if vals is None:
             ck.obligation('correspondence:scenes-image-write', False, 'model could not be evaluated')
             ck.tie_broken.append('correspondence scenes.image write: model evaluation failed')
@@ -429,10 +443,11 @@ Definition flat_img2 (r : N * list (list N) * list pentry) : list N :=
   let '(v, pool, ps) := r in v :: N.of_nat (length ps) :: flat_map flat_p2 ps.
 '''
     fixed = plits
-    for lo in range(0, len(fixed), 120):
-        part = fixed[lo:lo + 120]
-        vals = ck.coq_eval(IMP_IMG, [f'bad_idx (fun c : list N * option (list N) => onl_eqb (option_map flat_img2 (img_parse (fst c))) (snd c)) 0 {coq_list(part)}'],
-                           name='imgparse', preamble=pre)
+    jobs = []
+    for lo in range(0, len(fixed), 60):
+        part = fixed[lo:lo + 60]
+        jobs.append((IMP_IMG, [f'bad_idx (fun c : list N * option (list N) => onl_eqb (option_map flat_img2 (img_parse (fst c))) (snd c)) 0 {coq_list(part)}'], f'imgparse{lo}', pre))
+    for lo, vals in zip(range(0, len(fixed), 60), par_eval(ck, jobs)):
         if vals is None:
             ck.obligation('correspondence:scenes-image-parse', False, 'model could not be evaluated')
             ck.tie_broken.append('correspondence scenes.image parse: model evaluation failed')
@@ -453,6 +468,136 @@ Definition flat_img2 (r : N * list (list N) * list pentry) : list N :=
         v, exp = pcases[real_bad[0]]
         ck.tie_broken.append('correspondence scenes.image parse (Fmt/ScenesImage.v img_parse vs parse_scenes_image)')
         ck.extra['image_parse_disagreement'] = {'file_hex': v.hex(), 'impl': repr(exp)[:600]}
+
+
+def corr_image_pool(ck: Ck) -> None:
+    """`img_save_s si_gen_cfg` (the writer over the configuration regenerated from choreo.py, including the construction of
+    the string pool and the sort) vs save_scenes_image_sync: dict form with fresh and stale keys, iterable form, raw
+    entries sharing a pool plus scene-backed entries, values struct.pack refuses."""
+    from srctools import binformat
+    from srctools.choreo import Entry, CRC, save_scenes_image_sync
+    n = ck.budget(40, 600)
+    cases = []
+    for _ in range(n):
+        rng = ck.rng
+        version = rng.choice([2, 3])
+        is_dict = rng.random() < 0.5
+        pool0: list[str] = []
+        while len(pool0) < rng.choice([0, 0, 2, 5]):
+            t = bytes(rng.randrange(1, 256) for _ in range(rng.randint(0, 5))).decode('latin1')
+            if t not in pool0:
+                pool0.append(t)
+        pool_obj = list(pool0)
+        ents = []
+        crcs: set[int] = set()
+        want_error = rng.random() < 0.08
+        for _ in range(rng.choice([0, 1, 2, 3, 4])):
+            crc = rng.choice([rng.getrandbits(32), rng.randrange(0, 8), 0xFFFFFFFF - rng.randrange(3)])
+            if crc in crcs:
+                continue
+            crcs.add(crc)
+            if rng.random() < 0.3:
+                sc = U.scene_build(U.scene_gen(rng, 'binary', flex_p=0.1))
+                e = Entry.from_scene('', sc)
+                e.checksum = CRC(crc)
+            else:
+                sounds = []
+                for _ in range(rng.choice([0, 0, 1, 2, 3])):
+                    sounds.append(rng.choice(pool0) if pool0 and rng.random() < 0.6 else 'snd%d' % rng.randrange(5))
+                blob = bytes(rng.randrange(256) for _ in range(rng.choice([0, 1, 7, 30])))
+                if rng.random() < 0.1:
+                    blob = bytes([rng.randrange(256)]) * 200
+                if blob[:4] == b'LZMA':
+                    blob = b'x' + blob
+                dur = rng.choice([0, 1, 4407, rng.getrandbits(32)])
+                last = rng.choice([0, dur % 2 ** 31, rng.getrandbits(31)])
+                e = Entry('', CRC(crc), dur, last, sounds, (blob, pool_obj))
+            ents.append(e)
+        if want_error and ents:
+            e = rng.choice(ents)
+            k = rng.choice(['last', 'dur', 'crc'])
+            if k == 'last':
+                e.last_speak_ms = 2 ** 31 + rng.randrange(5)      # '<i': refused in version 3, not written in version 2
+            elif k == 'dur':
+                e.duration_ms = 2 ** 32 + rng.randrange(5)
+            else:
+                e.checksum = CRC(2 ** 32 + rng.randrange(5))
+        rng.shuffle(ents)
+        keys = []
+        for e in ents:
+            keys.append(e.checksum if rng.random() < 0.6 else rng.getrandbits(32))
+        if len(set(keys)) != len(keys):
+            keys = [e.checksum for e in ents]
+        arg = {CRC(k): e for k, e in zip(keys, ents)} if is_dict else list(ents)
+        # strings each scene asks the pool for (independent of the pool's content)
+        strs = []
+        for e in ents:
+            req: list[str] = []
+            if not isinstance(e._data, tuple):
+                def rec(x: str, req=req) -> int:
+                    req.append(x)
+                    return 0
+                e._data.export_binary(rec)
+            strs.append(req)
+        f = io.BytesIO()
+        try:
+            save_scenes_image_sync(f, arg, version=version)
+            data = f.getvalue()
+            exp = f'Some {nl(data)}'
+            ck.hist('image_pool_case', 'bytes')
+        except struct.error:
+            data = None
+            exp = 'None'
+            ck.hist('image_pool_case', 'struct.error')
+        lits = []
+        final_pool = list(pool_obj)
+        if data is not None and not any(isinstance(e._data, tuple) for e in ents):
+            # no raw entry: the writer used a pool of its own; take it from the file (strings only, through the offset table)
+            fh = io.BytesIO(data)
+            fh.seek(12)
+            [npool] = struct.unpack('<i', fh.read(4))
+            fh.seek(20)
+            final_pool = binformat.read_offset_array(fh, npool, 'latin1')
+        for k, e, req in zip(keys, ents, strs):
+            if isinstance(e._data, tuple):
+                raw = e._data[0]
+            else:
+                raw = e._data.export_binary(binformat.find_or_insert(list(final_pool), lambda x: x))   # pool is complete: lookups only
+            comp = binformat.compress_lzma(raw)
+            stored = comp if len(comp) < len(raw) else raw
+            snds = coq_list(nl(x.encode('latin1')) for x in e.sounds)
+            rq = coq_list(nl(x.encode('latin1')) for x in req)
+            lits.append(f'({k}, mkSentry {e.checksum} {e.duration_ms} {e.last_speak_ms} {snds} {rq} {nl(stored)})')
+        # the pool the writer starts from is the one the raw entries share; without a raw entry it starts empty
+        p0 = coq_list(nl(x.encode('latin1')) for x in (pool0 if any(isinstance(e._data, tuple) for e in ents) else []))
+        cases.append((f'(({str(is_dict).lower()}, {version}), {p0}, {coq_list(lits)}, {exp})',
+                      {'version': version, 'dict': is_dict, 'pool0': pool0, 'keys': keys, 'crcs': [e.checksum for e in ents],
+                       'sounds': [list(e.sounds) for e in ents], 'scene_strings': strs, 'impl': 'error' if data is None else data.hex()[:600]}))
+        ck.count('image_pool_cases')
+        ck.hist('image_pool_form', ('dict' if is_dict else 'iterable') + ('-stale-keys' if is_dict and keys != [e.checksum for e in ents] else ''))
+        if len(ents) >= 2 and data is not None:
+            ck.seen(('imgpool', data))
+    ck.sample({'scenes_image_pool_case': cases[0][1]})
+    bad: list[int] = []
+    jobs = []
+    for lo in range(0, len(cases), 25):
+        part = cases[lo:lo + 25]
+        lit = coq_list(c for c, _ in part)
+        jobs.append((IMP_IMGCFG, ['bad_idx (fun c : (bool * N) * list (list N) * list (N * sentry) * option (list N) => '
+                                  'let \'(dv, p0, kes, e) := c in onl_eqb (img_save_s si_gen_cfg (fst dv) (snd dv) p0 kes) e) 0 ' + lit], f'imgpool{lo}', PRE))
+    for lo, vals in zip(range(0, len(cases), 25), par_eval(ck, jobs)):
+        if vals is None:
+            ck.obligation('correspondence:scenes-image-pool-and-sort', False, 'model could not be evaluated')
+            ck.tie_broken.append('correspondence scenes.image pool/sort: model evaluation failed')
+            return
+        bad += [lo + i for i in parse_coq_N_list(vals[0])]
+    ck.obligation('correspondence:scenes-image-pool-and-sort', not bad,
+                  f'{len(cases)} images (dict with fresh / stale keys, iterable; raw entries sharing a pool and scene-backed entries; values struct.pack '
+                  f'refuses): img_save_s si_gen_cfg (configured writer incl. pool construction and sort) vs save_scenes_image_sync bytes/error: '
+                  f'{len(bad)} disagreements')
+    if bad:
+        ck.tie_broken.append('correspondence scenes.image pool/sort (Fmt/ScenesImageCfg.v img_save_s over Gen/ScenesImg_gen.v vs save_scenes_image_sync)')
+        ck.extra['image_pool_disagreement'] = cases[bad[0]][1]
 
 
 # ================================================================================================ oracle search
@@ -650,7 +795,8 @@ def sample_files(ck: Ck) -> None:
 
 # ================================================================================================ main
 
-QUICK = {'cmdseq': 150, 'smd': 500, 'sndscript': 500, 'vmt': 600, 'pcf': 300, 'vcd-text': 300, 'vcd-binary': 400, 'scenes-image': 100}
+QUICK = {'cmdseq': 150, 'smd': 500, 'sndscript': 500, 'vmt': 600, 'pcf': 300, 'vcd-text': 200, 'vcd-binary': 400, 'scenes-image': 60}
+THOROUGH_FACTOR = {'vcd-text': 37, 'scenes-image': 42}
 
 
 def run(ck: Ck) -> None:
@@ -678,13 +824,18 @@ def run(ck: Ck) -> None:
     ]
     ok1 = ck.translate('CmdSeqFmt_gen', T.translate_cmdseq)
     ok2 = ck.translate('SmdTpl_gen', T.translate_smd)
-    built = ck.build(['Props/C20.vo'] + (['Gen/CmdSeqFmt_gen.vo'] if ok1 else []) + (['Gen/SmdTpl_gen.vo'] if ok2 else []))
+    ok3 = ck.translate('ScenesImg_gen', T.translate_scenes_image)
+    built = ck.build(['Props/C20.vo'] + (['Gen/CmdSeqFmt_gen.vo'] if ok1 else []) + (['Gen/SmdTpl_gen.vo'] if ok2 else [])
+                     + (['Gen/ScenesImg_gen.vo'] if ok3 else []))
     lap('translate+build')
     if built:
         ck.theorems('Props/C20.v')
     lap('print-assumptions')
+    def tie(res: dict, what: str) -> None:
+        if not all(res.values()):
+            ck.tie_broken.append(f'instance obligations about {what} fail: ' + ', '.join(k for k, v in res.items() if not v))
     if built and ok1:
-        ck.instance_obligations(IMP_CS, {
+        tie(ck.instance_obligations(IMP_CS, {
             'cmdseq_record_layout_is_B_i_s_s_i_i_s_i_i_with_pad_widths': 'fmt_v2_shape gen_cfg',
             'cmdseq_special_names_fit_exe_field_and_values_nonzero': 'specials_okb gen_cfg',
             'cmdseq_written_version_tag_selects_current_struct_on_read': 'version_selects_v2 gen_cfg',
@@ -694,27 +845,52 @@ def run(ck: Ck) -> None:
             'cmdseq_blank_ensure_file_fills_the_field': 'Nat.eqb cs_blank_ensure cs_pad_ensure',
             'cmdseq_pack_order_is_parse_order': 'fkeys_eqb cs_write_order cs_parse_order && fkeys_eqb cs_write_order cs_model_order',
             'cmdseq_cfg_ok': 'cfg_okb gen_cfg',
-        }, name='cs')
+        }, name='cs'), 'cmdseq.py')
         lap('instance-cmdseq')
         files = corr_cmdseq_write(ck)
         lap('corr-cmdseq-write')
         corr_cmdseq_parse(ck, files)
         lap('corr-cmdseq-parse')
     if built and ok2:
-        ck.instance_obligations(IMP_SMD, {
+        tie(ck.instance_obligations(IMP_SMD, {
             'smd_numeric_fields_separated': 'forallb line_ok smd_lines',
             'smd_every_line_terminated': 'Nat.eqb smd_unterminated_lines 0',
             'smd_line_census_nonempty': 'Nat.leb 10 (length smd_lines)',
-        }, name='smd')
+        }, name='smd'), 'smd.py Mesh.export')
     lap('instance-smd')
     if built:
         corr_image(ck)
     lap('corr-image')
+    if built and ok3:
+        c = 'si_gen_cfg'
+        tie(ck.instance_obligations(IMP_IMGCFG, {
+            'image_magic_is_VSIF_on_both_sides': f'magic_okb {c}',
+            'image_header_is_4s_version_scenes_strings_offset': f'hdr_okb {c}',
+            'image_header_writer_and_reader_agree': f'same_layout hsrc_eqb (ic_hdr_w {c}) (ic_hdr_r {c})',
+            'image_table_record_is_crc_dataoff_datasize_summaryoff': f'ent_okb {c}',
+            'image_table_record_writer_and_reader_agree': f'same_layout esrc_eqb (ic_ent_w {c}) (ic_ent_r {c})',
+            'image_summaries_are_duration_lastspeak_count': f'sum_okb {c}',
+            'image_summary_writer_and_reader_agree': f'same_layout ssrc_eqb (ic_sumL_w {c}) (ic_sumL_r {c}) && same_layout ssrc_eqb (ic_sumS_w {c}) (ic_sumS_r {c})',
+            'image_sound_index_is_one_int_through_the_pool': f'snd_okb {c} && ic_sounds_through_pool {c}',
+            'image_pool_offsets_are_ints_in_a_4_byte_slot_each': f'pooloff_okb {c}',
+            'image_version_tests_agree': f'version_okb {c}',
+            'image_table_sort_key_is_the_stored_checksum_for_every_input_form': f'sort_table_okb {c}',
+            'image_sorted_before_the_pool_is_filled_for_every_input_form': f'sort_pool_okb {c}',
+            'image_deferred_slots_keyed_by_checksum': f'eattr_eqb (ic_defer_key {c}) ACrc',
+            'image_layout_written_in_file_order': f'ic_layout_in_order {c}',
+            'image_short_summary_reads_last_speak_as_duration': f'ic_short_summary_last_is_duration {c}',
+            'image_strings_same_encoding_on_both_sides': f'ic_same_encoding {c}',
+            'image_reader_keys_entries_by_stored_checksum': f'ic_reader_keys_by_crc {c}',
+            'image_cfg_ok': f'icfg_okb {c}',
+        }, name='imgcfg'), 'choreo.py save_scenes_image_sync / parse_scenes_image')
+        lap('instance-image')
+        corr_image_pool(ck)
+        lap('corr-image-pool')
     # ---- search (always; larger when a tie is broken)
     for name, q in QUICK.items():
-        search_format(ck, name, ck.budget(q, q * 25))
+        search_format(ck, name, ck.budget(q, q * THOROUGH_FACTOR.get(name, 25)))
         lap('search-' + name)
-    image_extra(ck, ck.budget(25, 300))
+    image_extra(ck, ck.budget(15, 300))
     sample_files(ck)
     lap('image-invariants+samples')
     ck.sample({'smd_lines_from_source': ck.extra.get('translated', {}).get('SmdTpl_gen', {}).get('lines', [])[:6]})
@@ -727,6 +903,8 @@ def run(ck: Ck) -> None:
             ck.explain(o)
     if any(k.startswith('scenes-image:') for k in keys):
         ck.explain('correspondence:scenes-image')
+        ck.explain('instance:image_')
+        ck.explain('translate:ScenesImg_gen')
 
 
 def replay(data: dict) -> int:
